@@ -7,17 +7,21 @@ import (
 	"github.com/weedbox/syncsaga"
 )
 
+func newReadyGroup(timeout int) *syncsaga.ReadyGroup {
+	return syncsaga.NewReadyGroup(syncsaga.WithTimeout(timeout, func(rg *syncsaga.ReadyGroup) {
+		// Auto Ready By Default
+		for idx, isReady := range rg.GetParticipantStates() {
+			if !isReady {
+				rg.Ready(idx)
+			}
+		}
+	}))
+}
+
 func NewOpenGameManager(options OpenGameOption) OpenGameManager {
 	m := &openGameManager{
 		onOpenGameReady: options.OnOpenGameReady,
-		rg: syncsaga.NewReadyGroup(syncsaga.WithTimeout(options.Timeout, func(rg *syncsaga.ReadyGroup) {
-			// Auto Ready By Default
-			for idx, isReady := range rg.GetParticipantStates() {
-				if !isReady {
-					rg.Ready(idx)
-				}
-			}
-		})),
+		rg:              newReadyGroup(options.Timeout),
 	}
 	m.state = &OpenGameState{
 		Timeout:      options.Timeout,
@@ -45,8 +49,9 @@ func NewOpenGameManagerFromState(state OpenGameState, options OpenGameOption) Op
 			Participants: make(map[string]*OpenGameParticipant),
 		},
 	}
-	m.rg.OnCompleted(func(rg *syncsaga.ReadyGroup) {
-		m.readyGroupOnCompleted()
+	rg := m.rg
+	m.rg.OnCompleted(func(*syncsaga.ReadyGroup) {
+		m.readyGroupOnCompleted(rg)
 	})
 
 	m.readyGroupResetParticipants()
@@ -71,15 +76,26 @@ func NewOpenGameManagerFromState(state OpenGameState, options OpenGameOption) Op
 }
 
 func (m *openGameManager) Ready(participantID string) error {
+	m.mu.Lock()
+	defer m.mu.Unlock()
+
 	return m.readyGroupReady(participantID)
 }
 
 func (m *openGameManager) Setup(gameCount int, participants map[string]int) {
+	m.mu.Lock()
+	defer m.mu.Unlock()
+
 	m.state.GameCount = gameCount
 
 	m.rg.Stop()
-	m.rg.OnCompleted(func(rg *syncsaga.ReadyGroup) {
-		m.readyGroupOnCompleted()
+
+	// every set-up gets its own ready group: signals and completions still in flight for the
+	// previous set-up cannot reach this one
+	rg := newReadyGroup(m.state.Timeout)
+	m.rg = rg
+	m.rg.OnCompleted(func(*syncsaga.ReadyGroup) {
+		m.readyGroupOnCompleted(rg)
 	})
 	m.readyGroupResetParticipants()
 	for id, idx := range participants {
@@ -95,7 +111,10 @@ func (m *openGameManager) Setup(gameCount int, participants map[string]int) {
 }
 
 func (m *openGameManager) GetState() OpenGameState {
-	return *m.state
+	m.mu.Lock()
+	defer m.mu.Unlock()
+
+	return m.copyState()
 }
 
 func (m *openGameManager) PrintState() {
